@@ -26,6 +26,8 @@ var (
 	vhTrace    []int // ids of exec closures invoked, in order
 	vhLastBase  = -1   // identity base of the activation that ran the previous step
 	vhNewActAfterStop bool // some activation took its first step after the cancel
+	vhBaseAtStop = -1  // the activation that was running when the cancel arrived
+	vhAfterStopSame int // steps of THAT activation started after the cancel
 )
 
 func vhResetClock() {
@@ -33,13 +35,15 @@ func vhResetClock() {
 	vhTrace = nil
 	vhLastBase = -1
 	vhNewActAfterStop = false
+	vhBaseAtStop, vhAfterStopSame = -1, 0
 }
 
 // vhTick is called before every atomic load of a run id.
 func vhTick() {
 	if !vhStopped && vhClock == vhStopAt {
 		vhStopped = true
-		vhInterp.id++ // what stop() does (atomic.AddUint64(&interp.id, 1))
+		vhBaseAtStop = vhLastBase
+		vhInterp.stop() // the real stop(): advances the interpreter id, closes done
 	}
 	vhClock++
 }
@@ -71,6 +75,9 @@ func vhExecGraph(base, k int) []bltn {
 				vhAfterStop++
 				if base != vhLastBase {
 					vhNewActAfterStop = true
+				}
+				if base == vhBaseAtStop {
+					vhAfterStopSame++
 				}
 			}
 			vhLastBase = base
